@@ -61,6 +61,9 @@ THEOREMS = [P + n for n in (
     # round 4: reuse sessions
     'session_store_prefix', 'session_sources_unchanged', 'session_step_on_pristine',
     'session_outputs_pristine', 'session_corr_sqrt_rank',
+    # round 7: correlation on a large common offset (second-order effect of a common error in the means;
+    # raw-moment form = centred form over a field)
+    'centred_moment_common_error', 'centred_moment_eq_raw',
 )] + ['Rsa.Transform.' + n for n in (
     # bridges between the generated leaves (Rsa.Gen.C17) and the forms the theorems speak about
     'posClip_eq', 'sqrtArg_eq', 'minmaxEntry_eq', 'geotopEntry_eq', 'gtQa_eq', 'gtQb_eq',
@@ -120,6 +123,10 @@ BRANCHES = (['t:' + k for k in KINDS] + ['rank:' + m for m in RANK_METHODS] +
             ['scale:tiny', 'scale:huge', 'offset:huge', 'near_tie',
              'inv:scale:tiny', 'inv:scale:huge', 'inv:offset:huge', 'inv:near_tie',
              'inv:tau-a:scale:tiny', 'inv:tau-a:offset:huge', 'inv:tau-a:near_tie'] +
+            # round 7: correlation-type measures on exactly representable large offsets
+            ['offset:' + t for t in ('2^20', '2^24', '2^27', '1e6', '1e8')] +
+            ['offset:tol1e-9', 'offset:nan_shared', 'inv:corr:offset', 'inv:corr_cov:offset',
+             'inv:corr:shift', 'inv:corr_cov:shift', 'sess:corr_on_offset_result'] +
             # round 4: reuse sessions
             ['kind:sess', 'sess:float_nan_free', 'sess:int_dtype', 'sess:nan', 'sess:stack>1',
              'sess:cmp_then_tf', 'sess:centring_then_tf', 'sess:tf_cmp_tf', 'sess:cmp_on_result',
@@ -130,9 +137,13 @@ BRANCHES = (['t:' + k for k in KINDS] + ['rank:' + m for m in RANK_METHODS] +
 ASSUMPTIONS = [
     'IEEE evaluation of either side is within the stated tolerance of the real value (inputs are '
     'integers / dyadics times powers of two over ~24 decades of scale, offsets up to 2^40, n <= 6; '
-    'cosine- / correlation-type cases avoid huge common offsets and near-tie clusters (mean removal would be '
-    'rounding-dominated) and their tolerance grows as 64*eps*kappa^2 with the a-priori conditioning '
-    'kappa = max|x|/spread(x) of the exact inputs; geotop avoids thresholds inside a near-tie cluster)',
+    'cosine-type cases avoid huge common offsets, cosine- and correlation-type cases near-tie clusters (mean '
+    'removal would be rounding-dominated), and their tolerance grows as 64*eps*kappa^2 with the a-priori '
+    'conditioning kappa = max|x|/spread(x) of the exact inputs -- except for correlation-type rows of the '
+    'benign-offset class (entries on one dyadic grid with exact sums, one sign, min|x| >= max|x|/2, '
+    'kappa <= 2^30; offsets 2^20..1e8 in practice): there mean removal in doubles is exact up to one '
+    'common rounding d of the mean, which perturbs the correlation by <= 2 n (2^-53 kappa)^2 <= 4e-13, so '
+    'the tolerance stays 1e-9; geotop avoids thresholds inside a near-tie cluster)',
     'np.quantile (linear interpolation) is modelled by `quantileLin` on exact rationals and agrees '
     'within 1e-9 on every geotop case; the clipped linear map is continuous in the thresholds',
     'networkx.floyd_warshall_numpy returns shortest-path lengths (inf when unreachable); the model '
@@ -291,6 +302,11 @@ def _vector(rng, m, style):
 
 STYLES = ['ties', 'ties', 'neg', 'neg', 'quarters', 'unit', 'unit', 'distinct', 'distinct']
 WIDE_STYLES = ['tiny', 'huge', 'offset', 'near_tie']
+# round 7: exactly representable large offsets under an O(1) dyadic spread -- the class on which a
+# correlation computed from raw moments (sum x^2 - (sum x)^2 / n) cancels catastrophically while the
+# centred (two-pass) computation stays exact to second order (see `benign_offset`)
+BIG_OFFSETS = {'2^20': 2 ** 20, '2^24': 2 ** 24, '2^27': 2 ** 27, '1e6': 10 ** 6, '1e8': 10 ** 8}
+CORR_TYPE = ('corr', 'corr_cov')
 
 
 def pow10_exp(k):
@@ -315,6 +331,12 @@ def _wide_vector(rng, m, style, par):
         return [rat(b * sc) for b in base]
     if style == 'offset':
         return [rat(par['off'] + F(rng.randint(-8, 24), 4)) for _ in range(m)]
+    if style == 'bigoff':
+        # spread O(1) (multiples of 1/den in [0, 4], ties possible) on an exactly representable offset
+        while True:
+            ks = [rng.randint(0, 4 * par['den']) for _ in range(m)]
+            if (max(ks) - min(ks)) * 8 >= par['den']:
+                return [rat(par['off'] + F(k, par['den'])) for k in ks]
     if style == 'near_tie':
         sc = F(2) ** par['e']
         out = []
@@ -333,13 +355,16 @@ def _wide_params(rng, style):
         return {'e': pow10_exp(rng.randint(6, 12)), 'ties': rng.random() < 0.6, 'lo': rng.choice([-4, 0, 1])}
     if style == 'offset':
         return {'off': rng.choice([1, 1, 1, -1]) * 2 ** rng.choice([20, 30, 30, 40])}
+    if style == 'bigoff':
+        return {'off': rng.choice([1, 1, 1, -1]) * BIG_OFFSETS[rng.choice(sorted(BIG_OFFSETS))],
+                'den': rng.choice([4, 8, 64])}
     return {'e': rng.choice([0, 0, pow10_exp(-10), pow10_exp(-7), pow10_exp(9)]),
             'g': rng.randint(20, 39), 'centres': rng.sample(range(1, 9), rng.randint(1, 3))}
 
 
 def _stack(rng, m, n_rdm, style):
     """`n_rdm` vectors of one style (wide styles share scale / offset over the stack)"""
-    if style in WIDE_STYLES:
+    if style in WIDE_STYLES or style == 'bigoff':
         par = _wide_params(rng, style)
         return [_wide_vector(rng, m, style, par) for _ in range(n_rdm)]
     return [_vector(rng, m, style) for _ in range(n_rdm)]
@@ -366,6 +391,25 @@ def scale_tags(stack):
             tags.append('near_tie')
             break
     return tags
+
+
+def offset_tags(case):
+    """which of the exactly representable large offsets (BIG_OFFSETS) the centred rows of an `inv` case sit
+    on -- original rows and exactly mapped rows -- judged from the data: every |entry| within 64 of the
+    offset, spread <= 64"""
+    tags = set()
+    for mp, stack in ((case['fx'], case['x']), (case['fy'], case['y'])):
+        stack = _drop(stack, case.get('nanpos'))
+        stacks = [stack]
+        if mp is not None and mapped_exact(mp, stack) is not None:
+            stacks.append(mapped_exact(mp, stack))
+        for st in stacks:
+            for row in st:
+                vals = [abs(unrat(v)) for v in row]
+                for tag, off in BIG_OFFSETS.items():
+                    if all(abs(v - off) <= 64 for v in vals) and max(vals) > min(vals):
+                        tags.add(tag)
+    return sorted(tags)
 
 
 def _measure(rng):
@@ -498,10 +542,39 @@ def _draw_map(rng, name, stack):
         mp['e'] = pow10_exp(rng.choice([k for k in range(-12, 13) if k != 0]))
     if name == 'shift':
         vals = [unrat(v) for row in stack for v in row]
+        big = BIG_OFFSETS[rng.choice(sorted(BIG_OFFSETS))]
         c = rng.choice([2 ** 20, -2 ** 20, 2 ** 30, -2 ** 30, 1, F(-1, 4), -min(vals), -min(vals),
-                        -(min(vals) + max(vals)) / 2])
+                        -(min(vals) + max(vals)) / 2, big, big, -big])
         mp['c'] = rat(F(c))
+    if name in ('shift_off', 'affine_off'):
+        # round 7: y = a*x + b with an exactly representable large offset b (correlation-type measures)
+        vals = [unrat(v) for row in stack for v in row]
+        big = rng.choice([1, 1, 1, -1]) * BIG_OFFSETS[rng.choice(sorted(BIG_OFFSETS))]
+        if name == 'shift_off':
+            cands = [big, big, big]
+            if min(abs(v) for v in vals) > 1000:        # a stack that sits on an offset: remove it
+                cands += [-min(vals), -F(int(min(vals)))]
+            mp = {'name': 'shift', 'c': rat(F(rng.choice(cands)))}
+        else:
+            mp = {'name': 'affine', 'a': rat(F(rng.choice([1, 2, 4, 8, 3, 5, 6]), rng.choice([1, 2, 4]))),
+                  'b': rat(F(big))}
     return mp
+
+
+def exact_in_doubles(mp, stack):
+    """is the map, as the library evaluates it in doubles, exactly the rational map on these entries?
+    (a*x + b on dyadics with an exactly representable b: no rounding in the *data*, so whatever changes
+    in a comparison afterwards is produced by the library)"""
+    ex = mapped_exact(mp, stack)
+    if ex is None:
+        return False
+    f = float_map(mp)
+    with np.errstate(all='ignore'):
+        out = np.asarray(f(np.array([[float(unrat(v)) for v in row] for row in stack], dtype=float)),
+                         dtype=float)
+    if not np.all(np.isfinite(out)):
+        return False
+    return all(F(float(o)) == unrat(e) for ro, re_ in zip(out.tolist(), ex) for o, e in zip(ro, re_))
 
 
 def _inv_map(rng, method, vec_style, has_nan, stack):
@@ -522,10 +595,19 @@ def _inv_map(rng, method, vec_style, has_nan, stack):
             opts += ['minmax_transform']
     elif method in ('cosine', 'cosine_cov'):
         opts = ['scale', 'pow2']
+    elif vec_style == 'bigoff':
+        opts = ['scale', 'pow2', 'shift_off', 'shift_off']
     else:
-        opts = ['scale', 'pow2'] + ([] if wide else ['affine']) + ([] if has_nan else ['minmax_transform'])
+        opts = ['scale', 'pow2'] + ([] if wide else ['affine', 'shift_off', 'shift_off', 'affine_off']) + \
+            ([] if has_nan else ['minmax_transform'])
     for _ in range(12):
-        mp = _draw_map(rng, rng.choice(opts), stack)
+        drawn = rng.choice(opts)
+        mp = _draw_map(rng, drawn, stack)
+        if drawn in ('shift_off', 'affine_off') and not (
+                exact_in_doubles(mp, stack) and all(
+                    _is_const(r) or benign_offset([unrat(v) for v in r]) or row_kappa([unrat(v) for v in r]) <= 1000
+                    for r in mapped_exact(mp, stack))):
+            continue
         if mp['name'] == 'pow2':
             # stay far from overflow / underflow of the doubles (and of their squares and cubes)
             top = max([abs(v) for v in vals if v != 0] or [F(1)])
@@ -547,7 +629,7 @@ def _inv_case(rng, method, nmax):
     else:
         # centring / normalising is rounding-dominated when max|x| / spread(x) is large: no common
         # offsets and no near-tie clusters for the cosine- and correlation-type measures
-        wide = ['tiny', 'huge']
+        wide = ['tiny', 'huge'] + (['bigoff', 'bigoff'] if method in CORR_TYPE else [])
     sx = rng.choice(wide) if rng.random() < 0.5 else rng.choice(plain_x)
     sy = rng.choice(wide) if rng.random() < 0.3 else rng.choice(plain_y)
     x = _stack(rng, m, nx, sx)
@@ -821,25 +903,63 @@ def _tf_model(case, a):
 
 # ------------------------------------------------------------------ comparison
 
+def row_kappa(vals):
+    """max|v| / spread of one exact row (1 for a constant row)"""
+    spread = max(vals) - min(vals)
+    return float(max(abs(v) for v in vals) / spread) if spread > 0 else 1.0
+
+
+def benign_offset(vals):
+    """an exact row on a large common offset whose mean removal in doubles is nevertheless harmless:
+
+      * the entries are integers times one power of two 2^-g and len * max|v| * 2^g < 2^53, so every
+        partial sum (any summation order) is exact and the mean carries ONE rounding,
+        |d| <= 2^-53 |mean|;
+      * all entries have one sign and min|v| >= max|v| / 2, so x_i - mean^ is exact (Sterbenz);
+      * kappa = max|v| / spread <= 2^30.
+
+    The centred row computed by the two-pass code is then exactly xc - d*1 (xc the true centred row,
+    sum xc = 0), hence sum (xc - d)(yc - d') = Sxy + n d d' and sum (xc - d)^2 = Sxx + n d^2: the
+    correlation is perturbed only to SECOND order, by <= n d^2 / Sxx <= 2 n (2^-53 kappa)^2
+    <= 4e-13 (n <= 15; Sxx >= spread^2 / 2).  The raw-moment form sum x^2 - (sum x)^2 / n rounds
+    sum x^2 ~ n b^2 to its ulp ~ n b^2 2^-52, i.e. a FIRST-order error ~ kappa^2 2^-52 (1e-4 at 2^20)."""
+    spread = max(vals) - min(vals)
+    if spread == 0:
+        return False
+    lo, hi = min(abs(v) for v in vals), max(abs(v) for v in vals)
+    if not (all(v > 0 for v in vals) or all(v < 0 for v in vals)) or 2 * lo < hi:
+        return False
+    g = max(v.denominator for v in vals)
+    if g & (g - 1) or any(g % v.denominator for v in vals):
+        return False
+    ints = [int(v * g) for v in vals]
+    while all(k % 2 == 0 for k in ints):        # the common grid may be coarser than 1 (x * 2^e)
+        ints, g = [k // 2 for k in ints], F(g, 2)
+    return len(vals) * hi * g < 2 ** 53 and hi <= 2 ** 30 * spread
+
+
 def conditioning(case):
     """a-priori condition number of mean removal, from the exact inputs: the largest
     max|v| / (max v - min v) over the non-constant RDMs that are centred (original and, where the map is
-    exact, mapped); 1 for the measures that do not centre"""
+    exact, mapped); 1 for the measures that do not centre.  Rows of the `benign_offset` class (round 7:
+    exactly representable offset, exact sums, exact differences; the mapped row only if the map is
+    exact in doubles) count as 1: their centring error enters the correlation to second order only."""
     if case['method'] not in ('corr', 'corr_cov', 'cosine_cov'):
         return 1.0
     kappa = 1.0
     for mp, stack in ((case['fx'], case['x']), (case['fy'], case['y'])):
-        stacks = [_drop(stack, case['nanpos'])]
+        base = _drop(stack, case['nanpos'])
+        stacks = [(base, True)]
         if mp is not None:
-            ex = mapped_exact(mp, stacks[0])
+            ex = mapped_exact(mp, base)
             if ex is not None:
-                stacks.append(ex)
-        for st in stacks:
+                stacks.append((ex, exact_in_doubles(mp, base)))
+        for st, exact in stacks:
             for row in st:
                 vals = [unrat(v) for v in row]
-                spread = max(vals) - min(vals)
-                if spread > 0:
-                    kappa = max(kappa, float(max(abs(v) for v in vals) / spread))
+                if case['method'] in CORR_TYPE and exact and benign_offset(vals):
+                    continue
+                kappa = max(kappa, row_kappa(vals))
     return kappa
 
 
@@ -930,6 +1050,14 @@ def compare(case, impl, model):
             d = _diff_sim(model['sim_mapped'], model['sim'], max(rtol, 1e-9), max(atol, 1e-9), True)
             if d:
                 return f'model measure not invariant: {d}'
+        # round 7: correlation-type measures also against the exact-rational reference of the
+        # untransformed RDMs (what the property fixes), the implementation and the float model alike
+        for who, sim in (('impl', impl['sim']), ('model', model['sim'])):
+            bad = orc.against_exact(case, sim, (rtol, atol))
+            if bad is not None:
+                return f"{case['method']} after {case['fx']['name']}" \
+                       f"{'/' + case['fy']['name'] if case['fy'] else ''}: [{bad[0]}][{bad[1]}]: {who} " \
+                       f"{bad[2]!r} != exact correlation of the untransformed RDMs {bad[3]!r}"
         return None
     if 'raise' in model:
         # geodesic of a stack with a constant RDM or a NaN: the min-max row is NaN, the NaN
@@ -1048,7 +1176,7 @@ def _sess_inv_case(case, step):
             'route': step.get('route', 'compare'), 'method_name': step.get('method_name', step['method'])}
 
 
-def _sess_tf_step(rng, src, wide, has_nan, t=None):
+def _sess_tf_step(rng, src, wide, has_nan, t=None, big=False):
     t = t or rng.choice([k for k in SESS_TF if not has_nan or k in NAN_OK])
     st = {'op': 'tf', 'src': src, 't': t}
     if t == 'rank':
@@ -1060,7 +1188,12 @@ def _sess_tf_step(rng, src, wide, has_nan, t=None):
             fn = {'name': 'affine', 'a': rat(F(2) ** pow10_exp(rng.choice([-3, -2, 2, 3]))), 'b': 0}
         else:
             name = rng.choice(['affine', 'affine', 'scale', 'cube', 'cumsum'])
-            if name == 'affine':
+            if big or (name == 'affine' and rng.random() < 0.4):
+                # round 7: an exactly representable large offset (the result is compared exactly, and a
+                # later correlation-type comparison of the result must not notice the offset)
+                fn = {'name': 'affine', 'a': rat(F(rng.choice([1, 1, 2, 4]), rng.choice([1, 2]))),
+                      'b': rng.choice([1, 1, 1, -1]) * BIG_OFFSETS[rng.choice(sorted(BIG_OFFSETS))]}
+            elif name == 'affine':
                 fn = {'name': 'affine', 'a': _q(rng, 1, 12, 4), 'b': _q(rng, -8, 8, 4)}
             elif name == 'scale':
                 fn = {'name': 'affine', 'a': _q(rng, 1, 12, 4), 'b': 0}
@@ -1183,6 +1316,14 @@ def _sess_case(rng, nmax, template):
             add_tf(rng.choice([0, 0, 1]))
         else:
             add_cmp()
+    if not wide and not has_nan and rng.random() < 0.2:
+        # round 7: a*x + b with an exactly representable large offset, then a correlation-type comparison
+        # of the RESULT (must equal the comparison of the sources), then the sources again
+        side = rng.choice([0, 1])
+        steps.append(_sess_tf_step(rng, side, wide, has_nan, 'custom', big=True))
+        add_cmp(method='corr' if has_nan else rng.choice(CENTRING), sides=(side, 1 - side), prefer_result=True)
+        if rng.random() < 0.5:
+            add_cmp(method='corr', sides=(side, 1 - side), plain=True)
     return case
 
 
@@ -1416,6 +1557,8 @@ def sess_features(case, impl):
                                 src in [slots[q][0] for q in (s2['a'], s2['b']) if q < 2]
                                 for s2 in steps[:kk]):
                         br.append('sess:rank_on_result_after_centring')
+            if judged and st['method'] in CORR_TYPE and offset_tags(_sess_inv_case(case, st)):
+                br.append('sess:corr_on_offset_result')
             if st['method'] in ('cosine', 'cosine_cov') and st['a'] < 2 and st['b'] < 2 and \
                     any(h[0] == 'cmp' and h[1] in CENTRING for s_ in set(srcs) for h in touched[s_]):
                 br.append('sess:cosine_after_centring')
@@ -1586,6 +1729,17 @@ def features(case, impl):
         br += ['inv:' + t for t in tags]
         if case['method'] == 'tau-a':
             br += ['inv:tau-a:' + t for t in tags]
+        if case['method'] in CORR_TYPE:
+            offs = offset_tags(case)
+            br += ['offset:' + t for t in offs]
+            if offs:
+                br.append('inv:' + case['method'] + ':offset')
+                if inv_tolerance(case)[0] <= 1e-9:
+                    br.append('offset:tol1e-9')
+                if case['nanpos']:
+                    br.append('offset:nan_shared')
+            if case['fx']['name'] == 'shift' or (case['fy'] or {}).get('name') == 'shift':
+                br.append('inv:' + case['method'] + ':shift')
         return {'kind': 'inv', 'method': case['method'], 'map': case['fx']['name'],
                 'map_y': case['fy']['name'] if case['fy'] else None, 'n': case['n'],
                 'sigma': 'none' if case['sigma'] is None else 'vec', 'branches': br}
